@@ -703,6 +703,8 @@ def real_pool_run(spec: dict):
     for r in call_entry(spec, payloads, True, []):
         if isinstance(r, Result):
             got.append(observe(r))
+            if len(got) > len(payloads) + 1:
+                return f"more results than payloads: {len(got)} for {len(payloads)} (stopped consuming)"
     truth = {p["key"]: expected(spec, p) for p in spec["payloads"]}
     keys = [g[0] for g in got]
     if len(set(keys)) != len(keys):
@@ -738,10 +740,18 @@ def post_batch(tier: str, seed: int, total: dict):
             if spec["pool"] != "process" or len(spec["payloads"]) < 2:
                 continue
             spec["max_workers"] = spec["max_workers"] or 2
-            try:
-                msg = real_pool_run(spec)
-            except Exception as e:  # noqa: BLE001
-                msg = f"raised {type(e).__name__}: {e}"
+            # in a child of its own (process group): a loop that never ends or a pool that never answers is killed
+            from .runner import fork_call
+
+            kind, val = fork_call(lambda spec=spec: real_pool_run(spec), timeout=30.0)
+            if kind == "ok":
+                msg = val
+            elif kind == "err":
+                msg = "raised " + val.strip().splitlines()[-1][:300]
+            elif kind == "timeout":
+                msg = "no answer within 30 s (hang)"
+            else:
+                msg = f"child died ({val})"
             done += 1
             if msg:
                 problems.append({"seed": s, "spec": spec, "problem": msg})
